@@ -4,11 +4,15 @@
 `_runtest.SynchronousDeferredRunTest._run_user`.  Import-free (the driver links against it). -/
 namespace TTV.Deferred
 
-/-- results: `None`, integers, tuples (nested results) -/
+/-- results: `None`, integers, tuples (nested results), and objects with unusual `==` / truth value -/
 inductive Val
   | none
   | num (n : Nat)
   | pair (a b : Val)
+  /-- an opaque object the code must treat like any other value: 0 = an object equal to everything (`mock.ANY` style),
+  1 = an object whose `==` has no truth value (array style), 2 = `""`, 3 = `[]`, 4 = `False`, 5 = `()`.  The Deferred helpers
+  decide by the Deferred's STATE, never by the value's `==` or truth value. -/
+  | sym (k : Nat)
 deriving DecidableEq, Repr
 
 /-- a Deferred's result: a value or a `Failure` wrapping an exception (identified by a number) -/
